@@ -933,7 +933,7 @@ fn replay(args: &Args, path: &str) {
             let src = uncps(parts.last().unwrap_or(&"-"));
             println!("source: {}", show(&src));
             match parts[0] {
-                "lex" => {
+                "lex" | "parse" => {
                     println!("rust lex:   {}", rust_lex(&src));
                     println!("rust parse: {}", rust_parse(&src));
                 }
@@ -1032,6 +1032,20 @@ fn run(args: Args) {
         rust_parses.push(rust_parse(src));
     }
     let resp = run_driver(&args.driver, &requests);
+    // the parser model (recursive descent on fuel; Lean has no tail calls across a mutual block, so
+    // very long inputs are left to the no-panic check above)
+    let parse_idx: Vec<usize> = (0..inputs.len()).filter(|i| inputs[*i].1.chars().count() <= 2500).collect();
+    let parse_reqs: Vec<String> = parse_idx.iter().map(|i| format!("parse {}", cps(&inputs[*i].1))).collect();
+    let parse_resp = run_driver(&args.driver, &parse_reqs);
+    for (k, i) in parse_idx.iter().enumerate() {
+        let (class, src) = &inputs[*i];
+        let (imp, _) = split_resp(&parse_resp[k]);
+        if rust_parses[*i] != "panic" {
+            let input = format!("{}\nrequest: {}", show(src), parse_reqs[k]);
+            rep.arm(&format!("parse-model:{}", imp));
+            jd.judge(&mut rep, &format!("parse-outcome:{}", class), &input, rust_parses[*i], &imp, rust_parses[*i]);
+        }
+    }
     for i in 0..inputs.len() {
         let (class, src) = &inputs[i];
         let (imp, _spec) = split_resp(&resp[i]);
@@ -1147,6 +1161,9 @@ fn run(args: Args) {
         }
         let reqs: Vec<String> = bodies.iter().map(|b| format!("fmt {}", cps(b))).collect();
         let resp = run_driver(&args.driver, &reqs);
+        // the whole format string through the parser model as well (embedded expressions included)
+        let preqs: Vec<String> = bodies.iter().map(|b| format!("parse {}", cps(&format!("F\"{}\"", b)))).collect();
+        let presp = run_driver(&args.driver, &preqs);
         let mut inner = 0u64;
         for (i, b) in bodies.iter().enumerate() {
             let (imp, _) = split_resp(&resp[i]);
@@ -1158,6 +1175,12 @@ fn run(args: Args) {
             let rclass = if rust == "panic" { "panic" } else { "returns" };
             let iclass = if imp == "panic" { "panic" } else { "returns" };
             jd.judge(&mut rep, "fmt-panic", &input, rclass, iclass, "returns");
+            if rclass == "returns" {
+                let rp = if rust.starts_with("ok") { "ok" } else { "err" };
+                let (pimp, _) = split_resp(&presp[i]);
+                let pinput = format!("{}\nrequest: {}", show(&format!("F\"{}\"", b)), preqs[i]);
+                jd.judge(&mut rep, "fmt-parse-outcome", &pinput, rp, &pimp, rp);
+            }
             if rust == "inner" {
                 // the embedded expression does not parse: the scanner model must have got that far,
                 // i.e. not have failed with a scanner-level error *before* it; not comparable further
